@@ -183,12 +183,16 @@ func (e *Engine) SelectTag(next bool) {
 
 	if next {
 		e.cycleNextGroup()
-		newGrp := e.currentGroup()
-		newGrp.firstCell()
+
+		if newGrp := e.currentGroup(); newGrp != nil {
+			newGrp.firstCell()
+		}
 	} else {
 		e.cyclePreviousGroup()
-		newGrp := e.currentGroup()
-		newGrp.firstCell()
+
+		if newGrp := e.currentGroup(); newGrp != nil {
+			newGrp.firstCell()
+		}
 	}
 }
 
